@@ -549,7 +549,7 @@ def cross_cases(nv, rng, n):
 DASH_NS = {"id": "X2", "tasks": [
     {"name": "val", "params": [["pos"], ["name", "n"], ["opt", None]], "optional": ["opt"]},
     {"name": "after", "params": [["flag", False]]}]}
-DASH_VALUES = ["--", "-", "---", "--x", "-x=y", "--=", "-- "]
+DASH_VALUES = ["--", "-", "---", "--x", "-x=y", "--=", "-- ", "a\nb", "\n"]
 
 
 def dash_cases(nv):
